@@ -261,6 +261,10 @@ def run(cx):
     id_arith_discipline(cx, "C07.s")
     from props.C06 import inst_sibling_accounting
     inst_sibling_accounting(cx, "C07.t")
+    # "stale, duplicated or forged handshake frames never ... reset or replace a connection": a datagram that makes the
+    # parser panic takes every established connection of the endpoint down with it
+    from props.C03 import check_parser
+    check_parser(cx, "C07.u")
     from props.C17 import is_active_exact
     is_active_exact(cx, "C07.r")
 
